@@ -25,9 +25,9 @@ import dates as D   # noqa: E402
 from floatcmp import f2b, b2f, close  # noqa: E402
 from parallel import driver_parallel  # noqa: E402
 
-GEN = ['BondF', 'BondR']
+GEN = ['BondF', 'BondR', 'BondLoopR']
 PROPS = ['FinVerif.Props.C07a', 'FinVerif.Props.C07b', 'FinVerif.Props.C07c', 'FinVerif.Props.C07d', 'FinVerif.Props.C07e',
-         'FinVerif.Props.C07f', 'FinVerif.Props.C07g']
+         'FinVerif.Props.C07f', 'FinVerif.Props.C07g', 'FinVerif.Props.C07h', 'FinVerif.Props.C07i']
 DRIVERS = ['FinVerif.Driver.C07', 'FinVerif.Driver.C07Gen']
 SPEC_DRIVERS = ['FinVerif.Driver.C07Spec']
 
@@ -991,7 +991,7 @@ def judge_ladder(ctx, group, stats):
 
 def run(ctx):
     drivers_ok = C.lean_stage(ctx, GEN, PROPS, DRIVERS + SPEC_DRIVERS,
-                              extra_files=['FinVerif/Lemmas/C07Real.lean', 'FinVerif/Lemmas/C07Calc.lean', 'FinVerif/Lemmas/C07FD.lean',
+                              extra_files=['FinVerif/Lemmas/C07Real.lean', 'FinVerif/Lemmas/C07Loop.lean', 'FinVerif/Lemmas/C07Calc.lean', 'FinVerif/Lemmas/C07FD.lean',
                                            'FinVerif/Model/C07Bond.lean', 'FinVerif/Spec/C07.lean'])
     driver_availability(ctx, drivers_ok)
     C.import_financepy()
